@@ -278,6 +278,10 @@ func (s *Solver) CheckT(kind string, q *Query, wantModel bool, limit time.Durati
 	res := Unknown
 	var model Model
 	fail := func(why string) (Result, Model, error) {
+		if d := os.Getenv("GOSYM_SLOW_DIR"); d != "" {
+			os.MkdirAll(d, 0755)
+			os.WriteFile(fmt.Sprintf("%s/slow_%s_%d.smt2", d, strings.ReplaceAll(kind, "/", "_"), time.Now().UnixNano()), []byte(q.Text+"(check-sat)\n"), 0644)
+		}
 		p.kill()
 		st.Restarts++
 		st.Unknown++
